@@ -81,6 +81,10 @@ def constructed(rng):
                 cc = c * P10[s - k] + rng.choice((0, 1, P10[s - k] // 2, P10[s - k] - 1))
                 if cc <= M:
                     out.append(req("none", None, k, cc * rng.choice((1, -1)), s))
+    # multiples of 10^n beyond 2^64 / 2^128 reduced modulo the word size
+    for c, n_ in G.wrapped_multiples()[::2]:
+        s = rng.randrange(n_, 19)
+        out.append(req(rng.choice(FLAGNAMES), None, rng.choice((None, s - n_, s)), c * rng.choice((1, -1)), s))
     # decision boundary of division-free divisibility tests (x * inverse(5^n) mod 2^w against floor((2^w - 1) / 5^n))
     for c, n_ in G.modinv_boundary_all(rng)[::2]:
         s = rng.randrange(n_, 19)
